@@ -20,7 +20,11 @@ CONSTANTS
   SubLates = {0, 2, 11, 14}
   AttLates = {0, 3, 6, 9}
   MaxHeld = 2
+  MaxPasses = 1
+  MaxHeads = 1
+  HoldKinds = {"refresh"}
   Focus = FALSE
+  FocusPasses = FALSE
   Fams = {"all"}
 INVARIANTS Emit AttestedBounded SubsBounded RootsBounded RecordsBounded JobsBounded PendingExact
 CHECK_DEADLOCK FALSE
